@@ -455,9 +455,6 @@ func c02GenChurn(r *vu.RNG) string {
 }
 
 func c02Generate(r *vu.RNG, n int, emit func(string)) {
-	// vu.NewRNG(seed) starts consecutive seeds one step apart on the same splitmix64 stream, which
-	// made VERIF_SEED=1,2,3 generate (almost) the same cases: restart from a mixed output instead.
-	r = vu.NewRNG(r.U64() ^ 0x5bd1e9955bd1e995)
 	// boundary corpus: the prefix-with-zero-low-nibble witness and friends
 	for _, s := range []string{
 		"seq 0 P:1001:aa P:1f02:bb K:10 G:10 N:10 C:10",
